@@ -3,11 +3,13 @@ package props
 import (
 	"fmt"
 	"math"
+	"strings"
 	"time"
 
 	cedar "github.com/cedar-policy/cedar-go"
 	"github.com/cedar-policy/cedar-go/types"
 
+	"verif/internal/gen"
 	"verif/internal/mon"
 )
 
@@ -19,8 +21,13 @@ import (
 func init() {
 	orig := Registry["C12"]
 	Registry["C12"] = func(c *mon.Ctx) {
+		// the whole check runs with a process-local time zone that is not UTC (a fixed zone, set
+		// before any worker starts): the text forms of datetimes do not depend on it
+		time.Local = time.FixedZone("verif+0530", 5*3600+1800)
 		orig(c)
+		c.Rule += " The check process runs with a non-UTC local time zone. Stream root-constructors: the scalar constructors re-exported by the root package over boundary and random integers."
 		c12root(c)
+		c12uidForms(c)
 	}
 }
 
@@ -88,6 +95,55 @@ func c12root(c *mon.Ctx) {
 		b, berr = types.NewDecimalFromFloat(f)
 		if (aerr == nil) != (berr == nil) || (aerr == nil && a != b) {
 			w.Violation("decimal:root NewDecimalFromFloat differs from types.NewDecimalFromFloat", fmt.Sprintf("cedar.NewDecimalFromFloat(%v) = %v,%v; types: %v,%v", f, a, aerr, b, berr), wit)
+		}
+	})
+}
+
+// c12uidForms: text and binary forms of entity uids over the whole string universe, and long
+// string / id values whose Cedar rendering crosses the policy tokenizer's read buffer at every
+// alignment (the rendering of a value must evaluate back to it however long it is).
+func c12uidForms(c *mon.Ctx) {
+	ids := append(append([]string{}, gen.Strings...), gen.EntityIDs...)
+	c.ParFor("uid-text-and-binary", len(ids)*len(gen.EntityTypes), func(w *mon.W, i int) {
+		uid := types.NewEntityUID(types.EntityType(gen.EntityTypes[i%len(gen.EntityTypes)]), types.String(ids[i/len(gen.EntityTypes)]))
+		w.Evals(2)
+		w.Count("entity uid through its text and binary decoders")
+		w.NonTrivial(uid.String())
+		var u2, u3 types.EntityUID
+		if err := u2.UnmarshalCedar(uid.MarshalCedar()); err != nil || !u2.Equal(uid) {
+			w.Violation("entityuid:UnmarshalCedar(MarshalCedar) is not the identity ["+strClass(string(uid.ID))+"]", fmt.Sprintf("%s -> %v %v", uid.MarshalCedar(), u2, err), map[string]any{"uid": uid.String()})
+		}
+		b, err := uid.MarshalBinary()
+		if err == nil {
+			err = u3.UnmarshalBinary(b)
+		}
+		if err != nil || !u3.Equal(uid) {
+			w.Violation("entityuid:UnmarshalBinary(MarshalBinary) is not the identity ["+strClass(string(uid.ID))+"]", fmt.Sprintf("%q -> %v %v", b, u3, err), map[string]any{"uid": uid.String()})
+		}
+	})
+	chars := []string{"é", "€", "\U0001F600", "\\", "\"", "a€"}
+	c.ParFor("long-renderings", len(chars)*5*2*2, func(w *mon.W, i int) {
+		ch, pad, long, asID := chars[i%len(chars)], (i/len(chars))%5, (i/(len(chars)*5))%2, i/(len(chars)*10) == 1
+		s := strings.Repeat("x", pad) + strings.Repeat(ch, []int{400, 1500}[long])
+		var v types.Value = types.String(s)
+		if asID {
+			v = types.NewEntityUID("NS::T", types.String(s))
+		}
+		w.Evals(1)
+		w.Count("long value rendered and evaluated back")
+		w.NonTrivial(fmt.Sprint(i))
+		var p cedar.Policy
+		text := "permit(principal, action, resource) when { " + string(v.MarshalCedar()) + " == context.x };"
+		if err := p.UnmarshalCedar([]byte(text)); err != nil {
+			w.Violation("string:long rendering does not parse back ["+strClass(ch)+" characters]", fmt.Sprintf("the rendering (%d bytes) of a value of %d characters: %v", len(text), len(s), err), map[string]any{"character": ch, "padding": pad})
+			return
+		}
+		ps := cedar.NewPolicySet()
+		ps.Add("p", &p)
+		dec, diag := cedar.Authorize(ps, types.EntityMap{}, cedar.Request{Principal: types.NewEntityUID("U", "a"), Action: types.NewEntityUID("Action", "a"), Resource: types.NewEntityUID("U", "b"),
+			Context: types.NewRecord(types.RecordMap{"x": v})})
+		if dec != cedar.Allow || len(diag.Errors) > 0 {
+			w.Violation("string:long rendering evaluates to another value ["+strClass(ch)+" characters]", fmt.Sprintf("`<rendering of v> == context.x` with context.x = v is %v %v", dec, diag.Errors), map[string]any{"character": ch, "padding": pad})
 		}
 	})
 }
